@@ -19,6 +19,11 @@ EXPLANATION = (
     "partition the indices by the distance bit, and no index is yielded twice.")
 ASSUMPTIONS = ["slice::sort_by sorts by the given comparator; SmallVec/Option::take semantics; U256::bit(i) is bit i of the distance",
                "that the union of all buckets holds every stored key once is C37's clause, not repeated here"]
+TECHNIQUE = ("All patterns are evaluated on a normalised view of the MIR facts (vrules/lib_kad.canon): parameters by position, every "
+             "single-definition local expanded to its initialiser, closure captures by index, trivial crate-local helpers (accessors, one-comparison "
+             "predicates, one-line constructors) replaced by their bodies, private fields resolved by their type, comparisons normalised over operand "
+             "order / mirrored operators / method-call form / `!`, guard sets closed under bool hoisting. Behaviour-preserving refactorings that must stay "
+             "silent are archived in /verif/neutral/kad (01-12 and x1-author-combinators.diff).")
 SELFTEST = [
     {"mutation": "unfixed tree (before fix commit): ZoomIn arm yields bucket 0 unconditionally when next_in is None", "caught_by": "buckets-fsm/ZoomIn: bucket 0 is yielded only if it was not visited yet (current index != 0)"},
     {"mutation": "comparator operands swapped (b before a)", "caught_by": "sort/comparator is ascending distance to the target"},
@@ -30,8 +35,34 @@ SELFTEST = [
 
 CI = r"^libp2p_kad::<kbucket::ClosestIter as std::iter::Iterator>::next"
 CB = r"^libp2p_kad::<kbucket::ClosestBucketsIter as std::iter::Iterator>::next$"
-BN = r"<std::option::Option as std::ops::Try>::branch\(libp2p_kad::<kbucket::ClosestBucketsIter as std::iter::Iterator>::next\(self\.buckets_iter\)\)@Continue\.0"
 BI0 = "libp2p_kad::kbucket::BucketIndex::BucketIndex{0: 0}"
+
+
+class F:
+    pass
+
+
+def resolve(prog):
+    ci = r"kbucket::ClosestIter$"
+    F.target = lk.fld(prog, ci, r"TTarget$")
+    F.table = lk.fld(prog, ci, r"kbucket::KBucketsTable<")
+    F.biter = lk.fld(prog, ci, r"^kbucket::ClosestBucketsIter$")
+    F.iter = lk.fld(prog, ci, r"kbucket::ClosestIterBuffer<")
+    F.fmap = lk.fld(prog, ci, r"^TMap$")
+    F.bsize = lk.fld(prog, ci, r"^usize$")
+    cb = r"kbucket::ClosestIterBuffer$"
+    F.buffer = lk.fld(prog, cb, r"^smallvec::SmallVec<")
+    F.index = lk.fld(prog, cb, r"^usize$")
+    kt = r"kbucket::KBucketsTable$"
+    F.buckets = lk.fld(prog, kt, r"^std::vec::Vec<kbucket::bucket::KBucket<")
+    F.t_bsize = lk.fld(prog, kt, r"^usize$")
+    F.local_key = lk.fld(prog, kt, r"^TKey$")
+    F.applied = lk.fld(prog, kt, r"VecDeque<")
+    bi = r"kbucket::ClosestBucketsIter$"
+    F.distance = lk.fld(prog, bi, r"kbucket::key::Distance$")
+    F.state = lk.fld(prog, bi, r"ClosestBucketsIterState$")
+    F.kb_cap = lk.fld(prog, r"kbucket::bucket::KBucket$", r"^usize$")
+    F.kb_nodes = lk.fld(prog, r"kbucket::bucket::KBucket$", r"^std::vec::Vec<kbucket::bucket::Node<")
 
 
 def leaves_args(e):
@@ -39,7 +70,8 @@ def leaves_args(e):
 
 
 def check(ctx):
-    prog = ctx.prog
+    prog = lk.canon(ctx)
+    resolve(prog)
     check_iter(ctx, prog)
     check_buckets_iter(ctx, prog)
 
@@ -48,15 +80,24 @@ def check_iter(ctx, prog):
     b = ctx.body(K, CI + "$")
     W = lk.where(b)
     rets = b.return_blocks()
-    sorts = b.call_sites(r"slice::(<impl \[T\]>::)?sort(_unstable)?_by$|^std::slice::sort(_unstable)?_by$")
+    BN = "<std::option::Option as std::ops::Try>::branch(libp2p_kad::<kbucket::ClosestBucketsIter as std::iter::Iterator>::next(self.%s))@Continue.0" % F.biter
+    BN2 = "libp2p_kad::<kbucket::ClosestBucketsIter as std::iter::Iterator>::next(self.%s)@Some.0" % F.biter
+    TAKEN = "std::option::Option::take(self.%s)@Some.0" % F.iter
+    sorts = b.call_sites(r"slice::(<impl \[T\]>::)?sort(_unstable)?_by(_key|_cached_key)?$|^std::slice::sort(_unstable)?_by(_key|_cached_key)?$")
     ctx.floor("sort", "sort_by on the bucket buffer", sorts, 1, exact=True)
     ext = b.call_sites(r"SmallVec as std::iter::Extend>::extend$")
-    ctx.floor("sort", "buffer.extend", ext, 1, exact=True)
-    store = [s for s, k, t in lk.field_effects(b, "iter") if k == "set" and "ClosestIterBuffer::new(" in t]
+    loop_fill = False
+    if not ext:
+        # explicit loop `for e in bucket.iter().take(n) { buffer.push(Some(fmap(e))) }` instead of extend(chain)
+        ext = b.call_sites(r"smallvec::SmallVec::push$")
+        loop_fill = True
+    ctx.floor("sort", "buffer fill (extend or push loop)", ext, 1, exact=True)
+    store = [s for s, k, t in lk.field_effects(b, F.iter) if k == "set" and "kbucket::ClosestIterBuffer::ClosestIterBuffer{" in t]
     ctx.floor("sort", "store of the sorted buffer", store, 1, exact=True)
+    buf = render(b.site_expr(ext[0])[2][0]) if ext else "?"
     for s in sorts:
         e = b.site_expr(s)
-        ctx.ob("sort", "the sorted slice is the filled buffer", render(e[2][0]) in ("<smallvec::SmallVec as std::ops::DerefMut>::deref_mut(buffer)", "buffer"), s.loc(), render(e[2][0]))
+        ctx.ob("sort", "the sorted slice is the filled buffer", render(e[2][0]) in ("<smallvec::SmallVec as std::ops::DerefMut>::deref_mut(%s)" % buf, buf), s.loc(), render(e[2][0]))
         cl = lib.closure_of(prog, b, e)
         ok = False
         msg = "no comparator closure"
@@ -65,52 +106,80 @@ def check_iter(ctx, prog):
             if len(rs) == 1:
                 ce = cl.site_expr(rs[0])
                 msg = render(ce)[:400]
-                if ce[0] == "call" and re.search(r"kbucket::key::Distance as std::cmp::Ord>::cmp$", strip_generics(ce[1])) and len(ce[2]) == 2:
+                if re.search(r"_key$", strip_generics(e[1])):
+                    # sort_by_key(|x| target.distance(x)): ascending by construction, the key must be the distance to the target
+                    kx = ce[1] if (ce[0] == "field" and ce[2] == "0") else ce
+                    ok = kx[0] == "call" and strip_generics(kx[1]).endswith("kbucket::key::KeyBytes::distance") and render(kx[2][0]) == "std::convert::AsRef::as_ref(^0)" and leaves_args(kx[2][1]) == {2}
+                elif ce[0] == "call" and re.search(r"(kbucket::key::Distance|kbucket::key::U256) as std::cmp::Ord>::cmp$", strip_generics(ce[1])) and len(ce[2]) == 2:
                     sides = []
                     for x in ce[2]:
                         ds = mir.calls_in(x, r"kbucket::key::KeyBytes::distance$")
-                        good = len(ds) == 1 and x is not None and render(ds[0][2][0]) == "std::convert::AsRef::as_ref(^**self.target)"
+                        good = len(ds) == 1 and render(ds[0][2][0]) == "std::convert::AsRef::as_ref(^0)"
                         sides.append((good, leaves_args(ds[0][2][1]) if ds else set()))
-                    # closure params: _1 = closure env, _2 = a, _3 = b
+                    # closure params: _1 = closure env, _2 = first, _3 = second element
                     ok = sides[0] == (True, {2}) and sides[1] == (True, {3})
         ctx.ob("sort", "comparator is ascending distance to the target", ok, s.loc(), "cmp(distance(target, <1st arg>), distance(target, <2nd arg>)): " + msg[-260:])
-        ctx.ob("sort", "comparator captures the iterator's target", "[self.target]" in render(e), s.loc(), render(e)[-120:])
+        caps = [render(x) for c in mir.walk(e) if c[0] == "closure" for x in c[2]]
+        ctx.ob("sort", "comparator captures the iterator's target", caps == ["self.%s" % F.target], s.loc(), str(caps))
         if ext and store:
             ok = b.dominates(ext[0].bb, s.bb) and b.dominates(s.bb, store[0].bb) and ext[0].bb not in b.reachable(b.succ[s.bb], stop_nodes=[store[0].bb]) - {store[0].bb}
             ctx.ob("sort", "fill -> sort -> store on every path", ok, s.loc(), "extend bb%d, sort bb%d, store bb%d" % (ext[0].bb, s.bb, store[0].bb))
     for s in store:
-        ctx.ob("sort", "the stored buffer is the sorted one", R(b, s) == "std::option::Option::Some{0: libp2p_kad::kbucket::ClosestIterBuffer::new(buffer)}", s.loc(), R(b, s)[:140])
-    # --- fill
-    for s in ext:
-        t = R(b, s)
-        src = re.search(r"std::iter::Iterator::take\(libp2p_kad::kbucket::bucket::KBucket::iter\(<std::vec::Vec as std::ops::IndexMut>::index_mut\(self\.table\.buckets, libp2p_kad::kbucket::BucketIndex::get\((.*?)\)\)\), self\.bucket_size\)", t)
-        ctx.ob("iter", "buffer is filled from bucket.iter().take(bucket_size) of the selected bucket", src is not None and t.startswith("<smallvec::SmallVec as std::iter::Extend>::extend(buffer, "), s.loc(), t[:200])
-        ctx.ob("iter", "no filter between the bucket and the buffer", not re.search(r"Iterator::(filter|skip|step_by|take_while|skip_while|filter_map)\(", t), s.loc(), "only map/take adaptors")
         e = b.site_expr(s)
-        for c in [x for x in mir.walk(e) if x[0] == "closure"]:
-            cb = prog.closure_body(b, c[1])
-            rs = [render(cb.site_expr(x)) for x in lk.ret_sites(cb)]
-            ctx.ob("iter", "map closure applies the projection to every element", rs == ["std::ops::Fn::call(^*self.fmap, tuple{0: e})"], lk.where(cb), str(rs))
-    idx = [s for s in b.call_sites(r"Index(Mut)?>::index(_mut)?$") if render(b.site_expr(s)[2][0]) == "self.table.buckets"]
+        f = dict(e[4][0][1][4]) if e[0] == "agg" and e[3] == "Some" and e[4][0][1][0] == "agg" else {}
+        ctx.ob("sort", "the stored buffer is the sorted one, cursor at 0", render(f.get(F.buffer, ("unknown", "?"))) == buf and render(f.get(F.index, ("unknown", "?"))) == "0", s.loc(), R(b, s)[:160])
+    # --- fill
+    IDX = None
+    idx = [s for s in b.call_sites(r"Index(Mut)?>::index(_mut)?$") if render(b.site_expr(s)[2][0]) == "self.%s.%s" % (F.table, F.buckets)]
     ctx.floor("iter", "table.buckets[..]", idx, 1, exact=True)
+    bucket_txt = R(b, idx[0]) if idx else "?"
+    for s in ext:
+        e = b.site_expr(s)
+        src = e[2][1]
+        if loop_fill:
+            its = [c for c in mir.calls_in(e[2][1], r"IntoIterator>?::into_iter$")]
+            ok = len(its) == 1 and e[2][1][0] == "agg" and e[2][1][3] == "Some" and render(e[2][1][4][0][1]).startswith("std::ops::Fn::call(self.%s, tuple{0: " % F.fmap) and render(e[2][1][4][0][1]).endswith("@Some.0})")
+            ctx.ob("iter", "map closure applies the projection to every element", ok, s.loc(), render(e[2][1])[:200])
+            src = its[0][2][0] if its else src
+        adaptors = []
+        x = src
+        while x[0] == "call" and re.search(r"iter::Iterator::\w+$", strip_generics(x[1])):
+            adaptors.append(strip_generics(x[1]).split("::")[-1])
+            if adaptors[-1] == "take":
+                ctx.ob("iter", "take bound is the table's bucket size", render(x[2][1]) == "self.%s" % F.bsize, s.loc(), render(x[2][1]))
+            x = x[2][0]
+        ctx.ob("iter", "buffer is filled from bucket.iter() of the selected bucket", render(x) == "libp2p_kad::kbucket::bucket::KBucket::iter(%s)" % bucket_txt, s.loc(), render(x)[:200])
+        ctx.ob("iter", "no filter between the bucket and the buffer", set(adaptors) <= {"map", "take", "cloned", "copied"}, s.loc(), "adaptors %s" % adaptors)
+        cls = [c for c in mir.walk(e) if c[0] == "closure"]
+        if not loop_fill:
+            ctx.floor("iter", "projection closure", cls, 1)
+        for c in cls:
+            cb = prog.closure_body(b, c[1])
+            rs = [render(lk.subst_upvars(c, cb.site_expr(x))) for x in lk.ret_sites(cb)]
+            ctx.ob("iter", "map closure applies the projection to every element", rs == ["std::ops::Fn::call(self.%s, tuple{0: #2})" % F.fmap], lk.where(cb), str(rs))
     for s in idx:
         e = b.site_expr(s)[2][1]
-        ok = False
+        vals = []
         msg = render(e)
-        if e[0] == "call" and strip_generics(e[1]).endswith("BucketIndex::get") and e[2][0][0] == "field" and e[2][0][1][0] == "local":
-            l = e[2][0][1][1]
-            fld = e[2][0][2]
-            vals = []
-            for d in b.defs.get(l, []):
+        base = e
+        path = []
+        while base[0] == "field":
+            path.append(base[2])
+            base = base[1]
+        if base[0] == "local":
+            for d in b.defs.get(base[1], []):
                 if d[0] == "stmt":
                     v = b.rvalue_expr(d[3])
-                    if v[0] == "agg":
-                        vals.append(render(dict(v[4]).get(fld, ("unknown", "?"))))
-                    else:
-                        vals.append(render(v))
-            msg = str(vals)[:300]
-            ok = len(vals) == 2 and all(re.match("^" + BN + "$", v) for v in vals)
-        ctx.ob("iter", "bucket index is the value yielded by buckets_iter.next()", ok, s.loc(), msg)
+                    for fname in reversed(path):
+                        if v[0] == "agg":
+                            v = dict(v[4]).get(fname, ("unknown", "?"))
+                        else:
+                            v = ("field", v, fname, None)
+                    vals.append(render(v))
+        else:
+            vals = [msg]
+        ok = len(vals) >= 1 and all(v in (BN + ".0", BN2 + ".0") for v in vals)
+        ctx.ob("iter", "bucket index is the value yielded by buckets_iter.next()", ok, s.loc(), str(vals)[:300])
     ap = b.call_sites(r"^libp2p_kad::kbucket::bucket::KBucket::apply_pending$")
     it = b.call_sites(r"^libp2p_kad::kbucket::bucket::KBucket::iter$")
     ctx.ob("iter", "pending entry applied before the bucket is read", len(ap) == 1 and len(it) == 1 and b.dominates(ap[0].bb, it[0].bb) and ap[0].bb != it[0].bb
@@ -120,122 +189,133 @@ def check_iter(ctx, prog):
     ctx.floor("iter", "buffer iterator next()", nx, 1, exact=True)
     some_items = [s for s in lk.ret_sites(b) if s.si is not None and R(b, s).startswith("std::option::Option::Some{")]
     ctx.floor("iter", "item results", some_items, 1)
+    NXT = "libp2p_kad::<kbucket::ClosestIterBuffer as std::iter::Iterator>::next(%s)" % TAKEN
     for s in some_items:
         t = R(b, s)
-        ctx.ob("iter", "items come only from the sorted buffer", t == "std::option::Option::Some{0: libp2p_kad::<kbucket::ClosestIterBuffer as std::iter::Iterator>::next(iter)@Some.0}", s.loc(), t[:160])
-    restore = [s for s, k, t in lk.field_effects(b, "iter") if k == "set" and t == "std::option::Option::Some{0: iter}"]
+        ctx.ob("iter", "items come only from the sorted buffer", t == "std::option::Option::Some{0: %s@Some.0}" % NXT, s.loc(), t[:160])
+    restore = [s for s, k, t in lk.field_effects(b, F.iter) if k == "set" and t == "std::option::Option::Some{0: %s}" % TAKEN]
+    draws = b.call_sites(CB)
     for n in nx:
         some = tg(lib.switch_edges_on_site(b, n, {"Some"}))
         none = tg(lib.switch_edges_on_site(b, n, {"None"}))
         got = cnt(b, some, rets, restore) if some else None
         ctx.ob("iter", "partially consumed buffer is put back exactly once", got == (1, 1), n.loc(), "self.iter = Some(iter) on the item edge: %s" % (got,))
-        got = cnt(b, some, rets, b.call_sites(CB)) if some else None
+        got = cnt(b, some, rets, draws) if some else None
         ctx.ob("iter", "no bucket is skipped while the buffer still has items", got == (0, 0), n.loc(), "buckets_iter.next() on the item edge: %s" % (got,))
-        clear = lk.recv_calls(b, r"SmallVec::clear$", r"^iter\.buffer$")
+        clear = lk.recv_calls(b, r"SmallVec::clear$", "^" + re.escape(TAKEN + "." + F.buffer) + "$")
         got = cnt(b, none, lib.bbs(ext), clear) if none and ext else None
         ctx.ob("iter", "a reused buffer is cleared before it is refilled", got == (1, 1), n.loc(), "SmallVec::clear(iter.buffer) between exhaustion and refill: %s" % (got,))
-        got = cnt(b, none, lib.bbs(ext) + rets, b.call_sites(CB)) if none else None
+        got = cnt(b, none, lib.bbs(ext) + rets, draws) if none else None
         ctx.ob("iter", "exhausted buffer => exactly one new bucket index is drawn", got == (1, 1), n.loc(), str(got))
-    tk = lk.recv_calls(b, r"Option::take$", r"^self\.iter$")
-    none0 = tg(lib.switch_edges_on(b, r"^discr\(std::option::Option::take\(self\.iter\)\)$", {"None"}))
-    got = cnt(b, none0, lib.bbs(ext) + rets, b.call_sites(CB)) if none0 else None
+    tk = lk.recv_calls(b, r"Option::take$", r"^self\.%s$" % F.iter)
+    none0 = tg(lib.switch_edges_on(b, r"^discr\(std::option::Option::take\(self\.%s\)\)$" % F.iter, {"None"}))
+    got = cnt(b, none0, lib.bbs(ext) + rets, draws) if none0 else None
     ctx.ob("iter", "first call draws exactly one bucket index", len(tk) == 1 and got == (1, 1), W, str(got))
     # --- buffer iterator itself
     bi = ctx.body(K, r"^libp2p_kad::<kbucket::ClosestIterBuffer as std::iter::Iterator>::next$")
-    fx = lk.field_effects(bi, "index")
-    ok = len(fx) == 1 and fx[0][1] == "set" and fx[0][2] == "AddWithOverflow(self.index, 1).0"
+    fx = lk.field_effects(bi, F.index)
+    ok = len(fx) == 1 and fx[0][1] == "set" and fx[0][2] in ("AddWithOverflow(self.%s, 1).0" % F.index, "Add(self.%s, 1)" % F.index)
     ctx.ob("iter", "buffer cursor advances by one per item", ok, lk.where(bi), str([(k, t) for _, k, t in fx]))
-    g = [R(bi, s) for s in bi.call_sites(r"slice::(<impl \[T\]>::)?get_mut$")]
-    ctx.ob("iter", "buffer item is read at the cursor", g == ["core::slice::get_mut(<smallvec::SmallVec as std::ops::DerefMut>::deref_mut(self.buffer), self.index)"], lk.where(bi), str(g))
+    g = [R(bi, s) for s in bi.call_sites(r"slice::(<impl \[T\]>::)?get_mut$|SmallVec::get_mut$")]
+    ctx.ob("iter", "buffer item is read at the cursor", len(g) == 1 and g[0].endswith("(self.%s), self.%s)" % (F.buffer, F.index)) or g == ["core::slice::get_mut(self.%s, self.%s)" % (F.buffer, F.index)], lk.where(bi), str(g))
     if fx:
-        cont = tg(lib.switch_edges_on(bi, r"^discr\(<std::option::Option as std::ops::Try>::branch\(core::slice::get_mut\(", {"Continue"}))
-        got = cnt(bi, cont, bi.return_blocks(), [fx[0][0]]) if cont else None
+        got_sites = bi.call_sites(r"get_mut$")
+        cont = set()
+        for gs in got_sites:
+            cont |= lib.switch_edges_on_site(bi, gs, {"Continue", "Some"})
+        got = cnt(bi, tg(cont), bi.return_blocks(), [fx[0][0]]) if cont else None
         ctx.ob("iter", "cursor advanced on every yielded item", got == (1, 1), lk.where(bi), str(got))
-    bn = ctx.body(K, r"^libp2p_kad::kbucket::ClosestIterBuffer::new$")
-    ag = [R(bn, s) for s in bn.agg_sites(r"kbucket::ClosestIterBuffer$")]
-    ctx.ob("iter", "buffer cursor starts at 0", ag == ["libp2p_kad::kbucket::ClosestIterBuffer::ClosestIterBuffer{buffer: buffer, index: 0}"], lk.where(bn), str(ag))
     # --- constructors
     for fn in ("closest", "closest_keys"):
         c = ctx.body(K, r"^libp2p_kad::kbucket::KBucketsTable::%s$" % fn)
-        ag = [R(c, s) for s in c.agg_sites(r"kbucket::ClosestIter$")]
-        ok = len(ag) == 1 and re.match(r"^libp2p_kad::kbucket::ClosestIter::ClosestIter\{target: target, table: self, buckets_iter: libp2p_kad::kbucket::ClosestBucketsIter::new\(libp2p_kad::kbucket::key::KeyBytes::distance\(std::convert::AsRef::as_ref\(self\.local_key\), target\)\), iter: std::option::Option::None\{\}, fmap: closure:.*, bucket_size: self\.bucket_size\}$", ag[0]) is not None
-        ctx.ob("ctor", fn + ": buckets ordered by distance(local_key, target), sorted against the same target, take(bucket_size of the table)", ok, lk.where(c), str(ag)[:300])
-    fm = ctx.body(K, r"^libp2p_kad::kbucket::KBucketsTable::closest_keys::\{closure#0\}$")
-    rs = [R(fm, s) for s in lk.ret_sites(fm)]
-    ctx.ob("ctor", "closest_keys projects each node to its own key", rs == ["std::clone::Clone::clone(arg2.0.key)"], lk.where(fm), str(rs))
-    fm = ctx.body(K, r"^libp2p_kad::kbucket::KBucketsTable::closest::\{closure#0\}$")
-    rs = [R(fm, s) for s in lk.ret_sites(fm)]
-    ctx.ob("ctor", "closest projects each node to a view of itself", rs == ["libp2p_kad::kbucket::entry::EntryView::EntryView{node: libp2p_kad::<kbucket::bucket::Node as std::clone::Clone>::clone(arg2.0), status: arg2.1}"], lk.where(fm), str(rs)[:200])
+        ags = c.agg_sites(r"kbucket::ClosestIter$")
+        f = {k: render(v) for k, v in c.site_expr(ags[0])[4]} if len(ags) == 1 else {}
+        DIST = "libp2p_kad::kbucket::key::KeyBytes::distance(std::convert::AsRef::as_ref(self.%s), #2)" % F.local_key
+        ok = (f.get(F.target) == "#2" and f.get(F.table) == "self" and f.get(F.biter) == "libp2p_kad::kbucket::ClosestBucketsIter::new(%s)" % DIST
+              and f.get(F.iter) == "std::option::Option::None{}" and f.get(F.fmap, "").startswith("closure:") and f.get(F.bsize) == "self.%s" % F.t_bsize)
+        ctx.ob("ctor", fn + ": buckets ordered by distance(local_key, target), sorted against the same target, take(bucket_size of the table)", ok, lk.where(c), str(f)[:300])
+        fm = [x for x in prog.bodies(K) if x.kind == "closure" and lk.root_fn(prog, x) is c]
+        rs = [R(x, s) for x in fm for s in lk.ret_sites(x)]
+        if fn == "closest_keys":
+            ctx.ob("ctor", "closest_keys projects each node to its own key", rs == ["std::clone::Clone::clone(#2.0.key)"], lk.where(c), str(rs))
+        else:
+            ctx.ob("ctor", "closest projects each node to a view of itself", rs == ["libp2p_kad::kbucket::entry::EntryView::EntryView{node: libp2p_kad::<kbucket::bucket::Node as std::clone::Clone>::clone(#2.0), status: #2.1}"], lk.where(c), str(rs)[:200])
     ev = ctx.body(K, r"kbucket::entry::EntryView as std::convert::AsRef>::as_ref$")
     rs = [R(ev, s) for s in lk.ret_sites(ev)]
     ctx.ob("ctor", "EntryView is compared by its node key", rs == ["std::convert::AsRef::as_ref(self.node.key)"], lk.where(ev), str(rs))
     tn = ctx.body(K, r"^libp2p_kad::kbucket::KBucketsTable::new$")
-    ag = [R(tn, s) for s in tn.agg_sites(r"kbucket::KBucketsTable$")]
-    ctx.ob("ctor", "table.bucket_size = config.bucket_size (= every bucket's capacity)", len(ag) == 1 and "bucket_size: config.bucket_size" in ag[0], lk.where(tn), str(ag)[:240])
+    ags = tn.agg_sites(r"kbucket::KBucketsTable$")
+    f = {k: render(v) for k, v in tn.site_expr(ags[0])[4]} if len(ags) == 1 else {}
+    cfg_field = f.get(F.t_bsize, "?")
+    ctx.ob("ctor", "table.bucket_size = config.bucket_size (= every bucket's capacity)", re.match(r"^#2\.\w+$", cfg_field) is not None, lk.where(tn), str(f)[:240])
     kn = ctx.body(K, r"^libp2p_kad::kbucket::bucket::KBucket::new$")
-    ag = [R(kn, s) for s in kn.agg_sites(r"kbucket::bucket::KBucket$")]
-    ctx.ob("ctor", "bucket capacity = config.bucket_size", len(ag) == 1 and "capacity: config.bucket_size" in ag[0], lk.where(kn), str(ag)[:200])
-    cl = [c for c in prog.children(tn)]
-    rs = [render(c.site_expr(s)) for c in cl for s in lk.ret_sites(c)]
-    ctx.ob("ctor", "every bucket of the table is built from the same config", rs == ["libp2p_kad::kbucket::bucket::KBucket::new(^config)"], lk.where(tn), str(rs))
+    ags = kn.agg_sites(r"kbucket::bucket::KBucket$")
+    f2 = {k: render(v) for k, v in kn.site_expr(ags[0])[4]} if len(ags) == 1 else {}
+    ctx.ob("ctor", "bucket capacity = the same config field", f2.get(F.kb_cap, "?").replace("#1.", "") == cfg_field.replace("#2.", "") and f2.get(F.kb_cap, "").startswith("#1."), lk.where(kn), "%s vs %s" % (f2.get(F.kb_cap), cfg_field))
+    cl = [c for c in prog.bodies(K) if c.kind == "closure" and lk.root_fn(prog, c) is tn]
+    es = [c.site_expr(s) for c in cl for s in lk.ret_sites(c)]
+    ok = False
+    if len(es) == 1:
+        e = es[0]
+        if render(e) == "libp2p_kad::kbucket::bucket::KBucket::new(^0)":
+            ok = True
+        elif e[0] == "agg" and strip_generics(e[2]).endswith("kbucket::bucket::KBucket"):        # trivial constructor, shown inlined
+            ok = render(dict(e[4]).get(F.kb_cap, ("unknown", "?"))) == cfg_field.replace("#2.", "^0.")
+    ctx.ob("ctor", "every bucket of the table is built from the same config", ok and "[#2]" in f.get(F.buckets, ""), lk.where(tn), "%s %s" % ([render(e)[:120] for e in es], f.get(F.buckets, "")[-80:]))
     nb = prog.const(K, r"^libp2p_kad::kbucket::NUM_BUCKETS$").get("v")
     ctx.ob("ctor", "NUM_BUCKETS == 256 (one per bit of the 256-bit distance)", nb == 256, msg=str(nb))
-    t = " ".join(R(tn, s) for s in tn.call_sites())
-    ctx.ob("ctor", "the table has NUM_BUCKETS buckets", "std::ops::Range::Range{start: 0, end: const:libp2p_kad::kbucket::NUM_BUCKETS}" in t, lk.where(tn), t[:200])
+    ctx.ob("ctor", "the table has NUM_BUCKETS buckets", "std::ops::Range::Range{start: 0, end: const:libp2p_kad::kbucket::NUM_BUCKETS}" in f.get(F.buckets, ""), lk.where(tn), f.get(F.buckets, "")[:200])
 
 
 def check_buckets_iter(ctx, prog):
     R_ = "buckets-fsm"
+    S = "libp2p_kad::kbucket::ClosestBucketsIterState::"
     # --- new
     n = ctx.body(K, r"^libp2p_kad::kbucket::ClosestBucketsIter::new$")
+    NEWI = "libp2p_kad::kbucket::BucketIndex::new(#1)"
     st = {}
     for s in n.agg_sites(r"kbucket::ClosestBucketsIterState$"):
         gs = {g[0]: g[1] for g in n.guards_on_all_paths(s.bb)}
-        lab = gs.get("discr(libp2p_kad::kbucket::BucketIndex::new(distance))")
+        lab = gs.get("discr(%s)" % NEWI)
         st["|".join(sorted(lab)) if lab else "?"] = R(n, s)
-    ok = st == {"Some": "libp2p_kad::kbucket::ClosestBucketsIterState::Start{0: libp2p_kad::kbucket::BucketIndex::new(distance)@Some.0}",
-                "None": "libp2p_kad::kbucket::ClosestBucketsIterState::Start{0: %s}" % BI0}
+    ok = st == {"Some": S + "Start{0: %s@Some.0}" % NEWI, "None": S + "Start{0: %s}" % BI0}
     ctx.ob(R_, "new: starts at the bucket covering the target (bucket 0 for distance 0)", ok, lk.where(n), str(st)[:300])
-    ag = [R(n, s) for s in n.agg_sites(r"kbucket::ClosestBucketsIter$")]
-    ctx.ob(R_, "new: keeps the distance it was given", ag == ["libp2p_kad::kbucket::ClosestBucketsIter::ClosestBucketsIter{distance: distance, state: state}"], lk.where(n), str(ag))
-    # --- next_in / next_out
-    ni = ctx.body(K, r"^libp2p_kad::kbucket::ClosestBucketsIter::next_in$")
-    rs = [R(ni, s) for s in lk.ret_sites(ni)]
-    ok = len(rs) == 1 and re.match(r"^std::iter::Iterator::find_map\(std::iter::Iterator::rev\(std::ops::Range::Range\{start: 0, end: libp2p_kad::kbucket::BucketIndex::get\(i\)\}\), closure:.*\[self\]\)$", rs[0]) is not None
-    ctx.ob(R_, "next_in searches strictly below the current index, descending", ok, lk.where(ni), str(rs)[:260])
-    no = ctx.body(K, r"^libp2p_kad::kbucket::ClosestBucketsIter::next_out$")
-    rs = [R(no, s) for s in lk.ret_sites(no)]
-    ok = len(rs) == 1 and re.match(r"^std::iter::Iterator::find_map\(std::ops::Range::Range\{start: AddWithOverflow\(libp2p_kad::kbucket::BucketIndex::get\(i\), 1\)\.0, end: const:libp2p_kad::kbucket::NUM_BUCKETS\}, closure:.*\[self\]\)$", rs[0]) is not None
-    ctx.ob(R_, "next_out searches strictly above the current index up to NUM_BUCKETS, ascending", ok, lk.where(no), str(rs)[:260])
-    for fn, want_true in (("next_in", "Some"), ("next_out", "None")):
-        c = ctx.body(K, r"^libp2p_kad::kbucket::ClosestBucketsIter::%s::\{closure#0\}$" % fn)
-        sw = lk.switch_blocks(c, r"^libp2p_kad::kbucket::key::U256::bit\(\^\*self\.distance\.0, i\)$")
-        tab = {}
-        if len(sw) == 1:
-            for t, ls in c.switch_info(sw[0])[1].items():
-                vals = {R(c, s) for s in lk.ret_sites(c) if s.bb in c.reachable([t])}
-                tab["|".join(sorted(map(str, ls)))] = sorted(vals)
-        some = "std::option::Option::Some{0: libp2p_kad::kbucket::BucketIndex::BucketIndex{0: i}}"
-        none = "std::option::Option::None{}"
-        want = {"true": [some if want_true == "Some" else none], "false": [none if want_true == "Some" else some]}
-        ctx.ob(R_, "%s yields exactly the %s distance bits" % (fn, "set" if want_true == "Some" else "unset"), tab == want, lk.where(c), str(tab)[:300])
+    ags = n.agg_sites(r"kbucket::ClosestBucketsIter$")
+    f = {k: render(v) for k, v in n.site_expr(ags[0])[4]} if len(ags) == 1 else {}
+    ctx.ob(R_, "new: keeps the distance it was given", f.get(F.distance) == "#1", lk.where(n), str(f)[:200])
+    # --- next_in / next_out: first hit over a range, in either adaptor or loop form
+    BIT = "libp2p_kad::kbucket::key::U256::bit(self.%s.0, <e>)" % F.distance
+    SOME = "std::option::Option::Some{0: libp2p_kad::kbucket::BucketIndex::BucketIndex{0: <e>}}"
+    NONE = "std::option::Option::None{}"
+    for fn, rng, hit, desc in (("next_in", ["std::iter::Iterator::rev(std::ops::Range::Range{start: 0, end: #2.0})"], "true", "strictly below the current index, descending"),
+                               ("next_out", ["std::ops::Range::Range{start: AddWithOverflow(#2.0, 1).0, end: const:libp2p_kad::kbucket::NUM_BUCKETS}",
+                                             "std::ops::Range::Range{start: Add(#2.0, 1), end: const:libp2p_kad::kbucket::NUM_BUCKETS}"], "false", "strictly above the current index up to NUM_BUCKETS, ascending")):
+        fb = ctx.body(K, r"^libp2p_kad::kbucket::ClosestBucketsIter::%s$" % fn)
+        sc = lk.first_hit(prog, fb)
+        ctx.ob(R_, "floor:%s is a first-hit scan (find_map or loop)" % fn, sc is not None, lk.where(fb), nontrivial=False, msg=str(sc)[:300])
+        if sc is None:
+            continue
+        ctx.ob(R_, "%s searches %s" % (fn, desc), sc["range"] in rng, lk.where(fb), "%s over %s" % (sc["form"], sc["range"][:200]))
+        miss = "false" if hit == "true" else "true"
+        ok = sc["pred"] == BIT and sc["vals"].get(hit) == [SOME] and sc["vals"].get(miss) == [NONE] and sc["exhausted"] == [NONE]
+        ctx.ob(R_, "%s yields exactly the %s distance bits" % (fn, "set" if hit == "true" else "unset"), ok, lk.where(fb),
+               "test %s; %s -> %s; %s -> %s; exhausted -> %s" % (sc["pred"], hit, sc["vals"].get(hit), miss, sc["vals"].get(miss), sc["exhausted"]))
     # --- next()
     b = ctx.body(K, CB)
     W = lk.where(b)
-    stores = [(s, k, t) for s, k, t in lk.field_effects(b, "state")]
+    stores = [(s, k, t) for s, k, t in lk.field_effects(b, F.state)]
     ctx.floor(R_, "state stores", stores, 5)
     ctx.ob(R_, "state is only replaced as a whole", all(k == "set" for _, k, _ in stores), W, str([k for _, k, _ in stores]))
+    STATE = "self.%s" % F.state
     arms = {}
     for v in ("Start", "ZoomIn", "ZoomOut", "Done"):
-        ent = tg(lib.arm_entry(b, r"^discr\(self\.state\)$", v))
+        ent = tg(lib.arm_entry(b, "^discr\\(%s\\)$" % re.escape(STATE), v))
         ctx.ob(R_, "floor:arm " + v, len(ent) == 1, W, nontrivial=False, msg=str(ent))
         arms[v] = ent
     if not all(arms.values()):
         return
-    S = "libp2p_kad::kbucket::ClosestBucketsIterState::"
 
     def arm_rows(v):
-        """[(ret site, rendered result, [rendered state stores on the way], count)]"""
         ent = arms[v]
         reach = b.reachable(ent)
         other = set()
@@ -250,66 +330,50 @@ def check_buckets_iter(ctx, prog):
             rows.append((s, R(b, s), [R(b, x) for x in sts], cnt(b, ent, [s.bb], [x for x, _, _ in stores])))
         return rows
 
-    cur = {"Start": "self.state@Start.0", "ZoomIn": "self.state@ZoomIn.0", "ZoomOut": "self.state@ZoomOut.0"}
-    # Start
+    cur = {"Start": STATE + "@Start.0", "ZoomIn": STATE + "@ZoomIn.0", "ZoomOut": STATE + "@ZoomOut.0"}
     rows = arm_rows("Start")
     ok = len(rows) == 1 and rows[0][1] == "std::option::Option::Some{0: %s}" % cur["Start"] and rows[0][2] == [S + "ZoomIn{0: %s}" % cur["Start"]] and rows[0][3] == (1, 1)
     ctx.ob(R_, "Start(i): yields i and moves to ZoomIn(i)", ok, W, str([(r[1], r[2], r[3]) for r in rows])[:300])
-    # ZoomIn
     rows = arm_rows("ZoomIn")
     NI = "libp2p_kad::kbucket::ClosestBucketsIter::next_in(self, %s)" % cur["ZoomIn"]
     in_some = lib.switch_edges_on(b, "^discr\\(" + re.escape(NI) + "\\)$", {"Some"})
     in_none = lib.switch_edges_on(b, "^discr\\(" + re.escape(NI) + "\\)$", {"None"})
-    CURV = r"(libp2p_kad::kbucket::BucketIndex::get\(self\.state@ZoomIn\.0\)|self\.state@ZoomIn\.0\.0)"
-
-    def nz(c, r, l):
-        m = re.match(r"^(Ne|Eq|Gt|Lt)\((.*), (.*)\)$", r)
-        if m and ((re.match("^" + CURV + "$", m.group(2)) and m.group(3) == "0") or (re.match("^" + CURV + "$", m.group(3)) and m.group(2) == "0")):
-            op = m.group(1)
-            if op == "Lt" and m.group(2) != "0":
-                return False
-            if op == "Gt" and m.group(3) != "0":
-                return False
-            return l == ("false" if op == "Eq" else "true")
-        if re.match("^" + CURV + "$", r):
-            return l == "otherwise"
-        return False
-
-    def isz(c, r, l):
-        m = re.match(r"^(Ne|Eq)\((.*), (.*)\)$", r)
-        if m and ((re.match("^" + CURV + "$", m.group(2)) and m.group(3) == "0") or (re.match("^" + CURV + "$", m.group(3)) and m.group(2) == "0")):
-            return l == ("true" if m.group(1) == "Eq" else "false")
-        if re.match("^" + CURV + "$", r):
-            return l == 0
-        return False
-    nz_edges = b.guard_edges(nz)
-    z_edges = b.guard_edges(isz)
+    CURV = "^" + re.escape(cur["ZoomIn"] + ".0") + "$"
+    nz_edges = lk.rel_edges(b, CURV, r"^0$", "!=") | lk.rel_edges(b, CURV, r"^0$", ">")
+    z_edges = lk.rel_edges(b, CURV, r"^0$", "==")
+    for bi in b.live:            # `match i.get() { 0 => .., _ => .. }`
+        info = b.switch_info(bi)
+        if info and re.match(CURV, render(info[0])):
+            for t, ls in info[1].items():
+                if ls == {0}:
+                    z_edges.add((bi, t))
+                elif ls == {"otherwise"} and set().union(*[x for tt, x in info[1].items() if tt != t]) == {0}:
+                    nz_edges.add((bi, t))
     kinds = set()
     for s, r, sts, n_ in rows:
         if r == "std::option::Option::Some{0: %s@Some.0}" % NI:
             kinds.add("in")
             ctx.ob(R_, "ZoomIn: state carries the yielded index", sts == [S + "ZoomIn{0: %s@Some.0}" % NI] and n_ == (1, 1), s.loc(), "%s %s" % (sts, n_))
-            ctx.ob(R_, "ZoomIn: yields next_in only when it found one", bool(in_some) and b.must_pass_edges(s.bb, in_some), s.loc(), "")
+            ctx.ob(R_, "ZoomIn: yields next_in only when it found one", lk.passes(b, s.bb, in_some), s.loc(), "")
         elif r == "std::option::Option::Some{0: %s}" % BI0:
             kinds.add("zero")
             ctx.ob(R_, "ZoomIn: turning point stores ZoomOut(0) with the yield of bucket 0", sts == [S + "ZoomOut{0: %s}" % BI0] and n_ == (1, 1), s.loc(), "%s %s" % (sts, n_))
-            ctx.ob(R_, "ZoomIn: bucket 0 is yielded only after zooming in is exhausted", bool(in_none) and b.must_pass_edges(s.bb, in_none), s.loc(), "next_in(i) is None")
-            ok = bool(nz_edges) and b.must_pass_edges(s.bb, nz_edges)
+            ctx.ob(R_, "ZoomIn: bucket 0 is yielded only after zooming in is exhausted", lk.passes(b, s.bb, in_none), s.loc(), "next_in(i) is None")
+            ok = lk.passes(b, s.bb, nz_edges)
             ctx.ob(R_, "ZoomIn: bucket 0 is yielded only if it was not visited yet (current index != 0)", ok, s.loc(),
                    "ZoomIn(0) is entered only together with yielding bucket 0 (Start(0) or next_in == 0); without an `i != 0` guard bucket 0 is enumerated twice "
                    "whenever bit 0 of the distance is set or the distance is 0 or 1" if not ok else "guarded by current index != 0")
-        elif s.si is None and re.match(r"^libp2p_kad::<kbucket::ClosestBucketsIter as std::iter::Iterator>::next\(self\)$", r):
+        elif s.si is None and r == "libp2p_kad::<kbucket::ClosestBucketsIter as std::iter::Iterator>::next(self)":
             kinds.add("delegate")
             ok = sts in ([S + "ZoomOut{0: %s}" % cur["ZoomIn"]], [S + "ZoomOut{0: %s}" % BI0]) and n_ == (1, 1)
             ctx.ob(R_, "ZoomIn: continuing without a yield first moves to ZoomOut(current index)", ok, s.loc(), "%s %s" % (sts, n_))
-            ctx.ob(R_, "ZoomIn: continues zooming out without a yield only at index 0 with zoom-in exhausted", bool(z_edges) and bool(in_none) and b.must_pass_edges(s.bb, z_edges) and b.must_pass_edges(s.bb, in_none), s.loc(), "")
+            ctx.ob(R_, "ZoomIn: continues zooming out without a yield only at index 0 with zoom-in exhausted", lk.passes(b, s.bb, z_edges) and lk.passes(b, s.bb, in_none), s.loc(), "")
             st_site = [x for x, _, _ in stores if x.bb == s.bb or b.dominates(x.bb, s.bb)]
             ctx.ob(R_, "ZoomIn: state is updated before the recursive step", all(x.si is not None for x in st_site), s.loc(), "")
         else:
             kinds.add("?")
             ctx.ob(R_, "ZoomIn: every result is next_in, the turning point, or a continuation", False, s.loc(), r[:200])
     ctx.ob(R_, "floor:ZoomIn results", {"in", "zero"} <= kinds, W, nontrivial=False, msg=str(sorted(kinds)))
-    # ZoomOut
     rows = arm_rows("ZoomOut")
     NO = "libp2p_kad::kbucket::ClosestBucketsIter::next_out(self, %s)" % cur["ZoomOut"]
     out_some = lib.switch_edges_on(b, "^discr\\(" + re.escape(NO) + "\\)$", {"Some"})
@@ -319,10 +383,10 @@ def check_buckets_iter(ctx, prog):
         if r == "std::option::Option::Some{0: %s@Some.0}" % NO:
             kinds.add("out")
             ctx.ob(R_, "ZoomOut: state carries the yielded index", sts == [S + "ZoomOut{0: %s@Some.0}" % NO] and n_ == (1, 1), s.loc(), "%s %s" % (sts, n_))
-            ctx.ob(R_, "ZoomOut: yields next_out only when it found one", bool(out_some) and b.must_pass_edges(s.bb, out_some), s.loc(), "")
+            ctx.ob(R_, "ZoomOut: yields next_out only when it found one", lk.passes(b, s.bb, out_some), s.loc(), "")
         elif r == "std::option::Option::None{}":
             kinds.add("done")
-            ctx.ob(R_, "ZoomOut: exhausted => Done, yields None", sts == [S + "Done{}"] and n_ == (1, 1) and bool(out_none) and b.must_pass_edges(s.bb, out_none), s.loc(), "%s %s" % (sts, n_))
+            ctx.ob(R_, "ZoomOut: exhausted => Done, yields None", sts == [S + "Done{}"] and n_ == (1, 1) and lk.passes(b, s.bb, out_none), s.loc(), "%s %s" % (sts, n_))
         else:
             kinds.add("?")
             ctx.ob(R_, "ZoomOut: every result is next_out or the end", False, s.loc(), r[:200])
@@ -330,3 +394,23 @@ def check_buckets_iter(ctx, prog):
     rows = arm_rows("Done")
     ok = len(rows) == 1 and rows[0][1] == "std::option::Option::None{}" and rows[0][2] == [] and rows[0][3] == (0, 0)
     ctx.ob(R_, "Done: yields None forever", ok, W, str([(r[1], r[2], r[3]) for r in rows]))
+
+# thorough-tier sensitivity self-test (vrules/selftest.py): one-edit variants of the source that break the property
+MUTANTS = [
+    {"name": 'comparator operands swapped', "file": 'protocols/kad/src/kbucket.rs',
+     "find": '                    .distance(a.as_ref())\n                    .cmp(&self.target.as_ref().distance(b.as_ref()))',
+     "replace": '                    .distance(b.as_ref())\n                    .cmp(&self.target.as_ref().distance(a.as_ref()))',
+     "expect": '^sort/comparator is ascending', "why": 'descending order inside a bucket'},
+    {"name": 'next_in range inclusive', "file": 'protocols/kad/src/kbucket.rs',
+     "find": '(0..i.get()).rev().find_map(',
+     "replace": '(0..=i.get()).rev().find_map(',
+     "expect": '^buckets-fsm/next_in searches strictly below', "why": 'the current bucket is yielded again'},
+    {"name": 'buffer not put back', "file": 'protocols/kad/src/kbucket.rs',
+     "find": '                if let Some(next) = iter.next() {\n                    self.iter = Some(iter);\n                    return Some(next);',
+     "replace": '                if let Some(next) = iter.next() {\n                    return Some(next);',
+     "expect": '^iter/partially consumed buffer is put back', "why": 'the rest of the bucket is lost'},
+    {"name": 'next_out polarity', "file": 'protocols/kad/src/kbucket.rs',
+     "find": '            if !self.distance.0.bit(i) {',
+     "replace": '            if self.distance.0.bit(i) {',
+     "expect": '^buckets-fsm/next_out yields exactly the unset', "why": 'zoom-out revisits zoom-in buckets'},
+]
